@@ -444,6 +444,41 @@ func C11(c *ev.Ctx) {
 			from = to
 		}
 	}
+	// addresses far out of range whose BYTE offset a*4096 wraps around 2^64 onto a block that exists: refused like any
+	// other out-of-range address, and after a reopen every block still equals the last value written to it
+	for wi, w := range []int{1<<52 + 1, 1 << 52, 1<<53 + 2, 3<<52 + 1} {
+		kind := []string{"write", "read"}[wi%2]
+		if err := writePriorImage(imgPath, 99); err != nil {
+			c.Inconclusive("prior image: %v", err)
+			break
+		}
+		b := fdBehaviour{Prior: 99, H: []fdOp{{Op: "open", A: 3, Fail: "none"}, {Op: "write", A: 0, V: 1, Fail: "none"}, {Op: "write", A: 1, V: 2, Fail: "none"}, {Op: "write", A: 2, V: 3, Fail: "none"},
+			{Op: kind, A: w, V: 5, Fail: "none"}, {Op: "close"}}}
+		run := runSegment(b, 0, len(b.H), nil)
+		if run.Err != nil {
+			c.Inconclusive("strace: %v", run.Err)
+			break
+		}
+		o, ok := parseChildOut(run.Stdout)[4]
+		after := fdBehaviour{Prior: 99, H: []fdOp{{Op: "open", A: 3, Fail: "none"}, {Op: "read", A: 0, Fail: "none"}, {Op: "read", A: 1, Fail: "none"}, {Op: "read", A: 2, Fail: "none"}, {Op: "close"}}}
+		ar := runSegment(after, 0, len(after.H), nil)
+		ao := parseChildOut(ar.Stdout)
+		evaluations += 2
+		what := ""
+		if !ok || o[0] != 1 {
+			what = fmt.Sprintf("%s at address %d (= %d * 2^52 + %d) on a disk of 3 blocks was not refused (outcome %v)", kind, w, w>>52, w&(1<<52-1), o)
+		}
+		for a := 0; a < 3 && what == ""; a++ {
+			if got, ok := ao[1+a]; !ok || got[0] == 1 || got[1] != a+1 {
+				what = fmt.Sprintf("after a %s at address %d (= %d * 2^52 + %d) and a reopen, block %d reads as class %v, want the value %d written to it last", kind, w, w>>52, w&(1<<52-1), a, got, a+1)
+			}
+		}
+		if what != "" {
+			hb, _ := json.MarshalIndent(b, "", " ")
+			c.Violation("filedisk.wrapping-address", what+"\nchild output:\n"+run.Stdout+ar.Stdout, map[string]string{"behaviour.json": string(hb), "strace.log": run.Log})
+			break
+		}
+	}
 	for _, b := range table {
 		check(b, true)
 		if c.NViolations() > 4 {
